@@ -5,6 +5,8 @@ import FsModel.Mount
 import FsModel.Multi
 import FsModel.RouteSpec
 import FsProofs.Lemmas.PathLemmas
+import FsProofs.Lemmas.TreeLemmas
+import FsProofs.Lemmas.WrapLemmas
 
 namespace Fs.RouteLemmas
 open Fs Fs.Path Fs.PathSpec Fs.PathLemmas Fs.Ref Fs.Route Fs.RouteSpec
@@ -53,13 +55,29 @@ theorem findMount_tableOf (t : List (List Str × Nat)) (ht : ∀ e ∈ t, Clean 
     · simp only [hp, Bool.false_eq_true, if_false]
       exact ih'
 
+theorem delegate_nul {t : Mount.Table} {p : Str} (hn : '\x00' ∈ p) :
+    Mount.delegate t p = .err .InvalidCharsInPath := by
+  simp [Mount.delegate, hn]
+
+theorem delegate_noNul {t : Mount.Table} {p : Str} (hn : '\x00' ∉ p) :
+    Mount.delegate t p =
+      (match normpath p with
+       | .err e => .err e
+       | .ok n =>
+         match Mount.findMount (Mount.mountKey n) t with
+         | some r => .ok r
+         | none => .ok (0, p)) := by
+  have : p.contains '\x00' = false := by simpa using hn
+  simp only [Mount.delegate, this, Bool.false_eq_true, if_false]
+  rfl
+
 theorem delegate_tableOf (t : List (List Str × Nat)) (ht : ∀ e ∈ t, Clean e.1) (p : Str) (a : Bool)
-    (cs : List Str) (hc : Clean cs) (hp : normpath p = .ok (mkp a cs)) :
+    (cs : List Str) (hc : Clean cs) (hn : '\x00' ∉ p) (hp : normpath p = .ok (mkp a cs)) :
     Mount.delegate (tableOf t) p =
       match routeSpec t cs with
       | some (i, rest) => .ok (i, joinWith '/' rest)
       | none => .ok (0, p) := by
-  unfold Mount.delegate
+  rw [delegate_noNul hn]
   rw [hp]
   simp only
   rw [mountKey_mkp hc, findMount_tableOf t ht cs hc]
@@ -861,17 +879,46 @@ theorem prim_cfg (s : MState) (pr : Prim) : SameCfg s (prim s pr).1 := by
 
 /-! ### routing is insensitive to the spelling handed on by the base-class programs -/
 
-theorem routeMember_of_key (t : Table) (p q n m : Str) (hp : normpath p = .ok n) (hq : normpath q = .ok m)
+theorem routeMember_of_key (t : Table) (p q n m : Str) (hnp : '\x00' ∉ p) (hnq : '\x00' ∉ q)
+    (hp : normpath p = .ok n) (hq : normpath q = .ok m)
     (hk : mountKey n = mountKey m) : routeMember t p = routeMember t q := by
-  simp only [routeMember, delegate, hp, hq, hk]
+  simp only [routeMember, delegate_noNul hnp, delegate_noNul hnq, hp, hq, hk]
   cases findMount (mountKey m) t <;> rfl
 
-theorem routeMember_norm (t : Table) (p n : Str) (hp : normpath p = .ok n) :
-    routeMember t n = routeMember t p := by
-  obtain ⟨cs, hc, rfl⟩ := normpath_ok_clean p n hp
-  exact routeMember_of_key t _ _ _ _ (normpath_mkp hc) hp rfl
+/-- the components of a normal form come from the path: no NUL appears -/
+theorem noNul_mkp_of_normpath {p : Str} {a b : Bool} {cs : List Str} (hn : '\x00' ∉ p)
+    (hp : normpath p = .ok (mkp a cs)) (hc : Clean cs) : '\x00' ∉ mkp b cs := by
+  have hr : resolve (splitSlash p) = some cs := by
+    rw [normpath_eq_specNorm, specNorm] at hp
+    cases hr : resolve (splitSlash p) with
+    | none => rw [hr] at hp; cases hp
+    | some r =>
+      rw [hr] at hp
+      simp only [Res.ok.injEq] at hp
+      change mkp (startsWithSlash p) r = mkp a cs at hp
+      have hcr := resolve_result_clean p r hr
+      have h1 : joinWith '/' r = joinWith '/' cs := by
+        have := congrArg lstripSlash hp
+        rw [lstripSlash_mkp hcr, lstripSlash_mkp hc] at this
+        exact this
+      rw [join_clean_inj hcr hc h1]
+  intro hm
+  have hm' : '\x00' ∈ joinWith '/' cs := by
+    cases b <;> simp only [mkp, if_true, List.mem_append, List.mem_singleton] at hm
+    · simpa using hm
+    · rcases hm with hm | hm
+      · cases hm
+      · exact hm
+  rcases Fs.WrapLemmas.mem_joinWith _ _ hm' with h' | ⟨c, hc', hx⟩
+  · cases h'
+  · rcases Fs.TreeLemmas.foldl_step_mem _ _ _ hr c hc' with h' | h'
+    · cases h'
+    · exact hn (Fs.TreeLemmas.mem_of_mem_splitOn '/' p c h' _ hx)
 
-theorem routeMember_absnorm (t : Table) (p : Str) : routeMember t (absnorm p) = routeMember t p := by
+/-- routing does not tell a NUL-free path from the spelling `validatepath` returns for it
+(`abspath(normpath(p))`); a path with NUL is refused by `_delegate` before it is normalised -/
+theorem routeMember_absnorm (t : Table) (p : Str) (hn : '\x00' ∉ p) :
+    routeMember t (absnorm p) = routeMember t p := by
   unfold absnorm
   cases hp : normpath p with
   | err e => rfl
@@ -879,7 +926,8 @@ theorem routeMember_absnorm (t : Table) (p : Str) : routeMember t (absnorm p) = 
     obtain ⟨cs, hc, rfl⟩ := normpath_ok_clean p n hp
     simp only
     rw [abspath_mkp hc]
-    exact routeMember_of_key t _ _ _ _ (normpath_mkp hc) hp (by rw [mountKey_mkp hc, mountKey_mkp hc])
+    exact routeMember_of_key t _ _ _ _ (noNul_mkp_of_normpath hn hp hc) hn (normpath_mkp hc) hp
+      (by rw [mountKey_mkp hc, mountKey_mkp hc])
 
 theorem routeMember_of_delegate {t : Table} {p : Str} {i : Nat} {r : Str}
     (h : delegate t p = .ok (i, r)) : routeMember t p = some i := by
@@ -1037,18 +1085,12 @@ theorem scanRouted_calls (s : MState) (p : Str) (b : Bool) :
     · exact ⟨rfl, p, heq⟩
     · exact h
 
-/-- the path `_delegate` is applied to by the primitive -/
+/-- the path `_delegate` is applied to by the primitive: the caller's own path, for every method (since
+/repo 48e26ed also for `removedir`, which used to delegate `normpath(path)`) -/
 def routePath : Prim → Str
-  | .removedir p => normOf p
   | pr => pr.path
 
-theorem routeMember_routePath (t : Table) (pr : Prim) : routeMember t (routePath pr) = routeMember t pr.path := by
-  cases pr <;> try rfl
-  case removedir p =>
-    simp only [routePath, Prim.path, normOf]
-    cases hp : normpath p with
-    | err e => rfl
-    | ok n => exact routeMember_norm t p n hp
+theorem routeMember_routePath (t : Table) (pr : Prim) : routeMember t (routePath pr) = routeMember t pr.path := rfl
 
 /-- frame of a primitive: member `j` is unchanged when every call it receives is a query -/
 theorem prim_frame (s : MState) (pr : Prim) (j : Nat)
@@ -1127,12 +1169,9 @@ theorem prim_calls (s : MState) (pr : Prim) :
     · simp
     · split
       · simp
-      · next n hn hroot =>
-        intro c hc
-        have := routed_calls s (.removedir p) n c hc
-        refine Or.inr ⟨?_, this.2.1, this.2.2.2⟩
-        simp only [routePath, normOf, hn]
-        exact this.2.2.1
+      · intro c hc
+        have := routed_calls s (.removedir p) p c hc
+        exact Or.inr ⟨this.2.2.1, this.2.1, this.2.2.2⟩
   case makedirs p rc => simp
   all_goals
     apply checked_trace'
